@@ -143,14 +143,10 @@ func voteOption(s string) govv1.VoteOption {
 	return govv1.OptionEmpty
 }
 
-func coinsM(cs sdk.Coins, bad *int) chain.M {
+func (e *farmEnv) coinsM(cs sdk.Coins, bad *int) chain.M {
 	out := chain.M{}
 	for _, c := range cs {
-		v, ok := chain.Small(c.Amount)
-		if !ok {
-			*bad++
-		}
-		out[c.Denom] = v
+		out[c.Denom] = e.denomAmt(c.Denom, c.Amount, bad)
 	}
 	return out
 }
@@ -167,17 +163,7 @@ func (e *farmEnv) projectGov(ctx sdk.Context, out chain.M, inexact *int) {
 	for _, a := range e.gaccounts() {
 		row := chain.M{}
 		for _, d := range e.denoms() {
-			var v int64
-			var ok bool
-			if d == e.lp {
-				v, ok = chain.Scaled(e.gbalOf(ctx, a, d), e.unit)
-			} else {
-				v, ok = chain.Small(e.gbalOf(ctx, a, d))
-			}
-			if !ok {
-				*inexact++
-			}
-			row[d] = v
+			row[d] = e.denomAmt(d, e.gbalOf(ctx, a, d), inexact)
 		}
 		gbal[a] = row
 	}
@@ -192,11 +178,7 @@ func (e *farmEnv) projectGov(ctx sdk.Context, out chain.M, inexact *int) {
 		if !amt.IsInteger() {
 			*inexact++
 		}
-		v, ok := chain.Small(amt.TruncateInt())
-		if !ok {
-			*inexact++
-		}
-		cp[d] = v
+		cp[d] = e.div(amt.TruncateInt(), e.rk, inexact)
 	}
 	out["cp"] = cp
 	params, err := gk.Params.Get(ctx)
@@ -262,9 +244,9 @@ func (e *farmEnv) projectGov(ctx sdk.Context, out chain.M, inexact *int) {
 				if ct, err := govv1.LegacyContentFromMessage(lm); err == nil {
 					if fp, ok := ct.(*farmtypes.CommunityPoolCreateFarmProposal); ok {
 						pr["lpt"] = fp.LptDenom
-						pr["rpb"] = coinsM(fp.RewardPerBlock, inexact)
-						pr["applied"] = coinsM(fp.FundApplied, inexact)
-						pr["bond"] = coinsM(fp.FundSelfBond, inexact)
+						pr["rpb"] = e.coinsM(fp.RewardPerBlock, inexact)
+						pr["applied"] = e.coinsM(fp.FundApplied, inexact)
+						pr["bond"] = e.coinsM(fp.FundSelfBond, inexact)
 					}
 				}
 			}
@@ -279,7 +261,7 @@ func (e *farmEnv) projectGov(ctx sdk.Context, out chain.M, inexact *int) {
 	esc := chain.M{}
 	for _, info := range c.K.Farm.GetAllEscrowInfo(ctx) {
 		esc[strconv.FormatUint(info.ProposalId, 10)] = chain.M{"proposer": e.nameOf(info.Proposer),
-			"applied": coinsM(info.FundApplied, inexact), "bond": coinsM(info.FundSelfBond, inexact)}
+			"applied": e.coinsM(info.FundApplied, inexact), "bond": e.coinsM(info.FundSelfBond, inexact)}
 	}
 	out["esc"] = esc
 }
@@ -331,7 +313,7 @@ func isGovEvent(name string) bool {
 func (e *farmEnv) fundCommunityPoolTx() chain.Tx {
 	var cs sdk.Coins
 	for _, d := range e.rdenoms {
-		cs = append(cs, sdk.NewInt64Coin(d, e.initCP))
+		cs = append(cs, e.coins(map[string]int64{d: e.initCP})...)
 	}
 	return chain.Tx{Signer: "cpsrc", Msgs: []sdk.Msg{
 		distrtypes.NewMsgFundCommunityPool(sdk.NewCoins(cs...), e.c.Accts["cpsrc"].Addr.String())}}
@@ -402,6 +384,10 @@ func (e *farmEnv) randomGov(rng *rand.Rand, maxProps int) chain.M {
 			d := e.rdenoms[di]
 			r := int64(1 + rng.Intn(3))
 			amt := r*int64(1+rng.Intn(4)) + int64(rng.Intn(int(r)))
+			if e.mag {
+				r = e.grain * int64(1+rng.Intn(3))
+				amt = r*int64(4+rng.Intn(30)) + int64(rng.Intn(int(r)))
+			}
 			if rng.Intn(12) == 0 {
 				amt = r - 1 // budget below one block's reward: refused
 			}
